@@ -5,7 +5,7 @@ concatenations of fixed-width fields are injective, a single-bit flip changes a 
 Core Lean only. Nothing here mentions a hash function.
 -/
 import WowSrp.Model.Basic
-namespace WowSrp
+namespace WowSrp.Layout
 
 /-! ### little-endian encodings -/
 
@@ -151,4 +151,4 @@ theorem flipBit_flipBit (bs : Bytes) (i : Nat) : flipBit (flipBit bs i) i = bs :
   rw [this]
   exact List.modify_id _ _
 
-end WowSrp
+end WowSrp.Layout
